@@ -114,6 +114,13 @@ def run(prop, tier):
                 got = [0, captured["v"] + [W if use_reader else int(aw * rate)]]
             except Exception as e:
                 got = [1, exc_code(e)]
+            # the statement's unconditional rejections, evaluated on the implementation
+            must_reject = mind <= 0 or maxd <= 0 or sil < 0 or ((aw <= 0 or int(aw * rate) == 0) and not use_reader)
+            if viol is None and must_reject and got != [1, 1]:
+                viol = {"what": "split(min_dur=%r, max_dur=%r, max_silence=%r, %s) %s; the statement requires ValueError for non-positive min_dur/max_dur/analysis_window, negative max_silence or a window shorter than one sample" % (
+                    mind, maxd, sil, ("AudioReader input with block of %d samples at %d Hz" % (W, rate)) if use_reader else "analysis_window=%r, sampling_rate=%d" % (aw, rate),
+                    "was accepted (window counts %r)" % (got[1],) if got[0] == 0 else "raised error code %r" % (got[1],)),
+                        "min_dur": mind, "max_dur": maxd, "max_silence": sil, "analysis_window": None if use_reader else aw, "rate": rate, "AudioReader_input": use_reader}
             cases.append(case); impl.append(got)
             meta.append({"split": {"min_dur": mind, "max_dur": maxd, "max_silence": sil, "analysis_window": (W / rate if use_reader else aw), "rate": rate, "AudioReader_input": use_reader}})
     finally:
